@@ -918,7 +918,11 @@ fn canonicalise_undefined_symbols<'data, P: Platform>(
     undefined_symbols.sort_by_key(|u| usize::MAX - u.symbol_id.as_usize());
 
     for undefined in undefined_symbols {
-        let is_defined = undefined.ignore_if_loaded.is_some_and(|file_id| {
+        // The file that first defined the symbol might not have been loaded, but a different
+        // definition from a file that was loaded might have been selected instead, so check where
+        // the symbol now resolves to rather than only checking the first file.
+        let is_defined = undefined.ignore_if_loaded.is_some_and(|_| {
+            let file_id = symbol_db.file_id_for_symbol(symbol_db.definition(undefined.symbol_id));
             !matches!(
                 groups[file_id.group()].files[file_id.file()],
                 ResolvedFile::NotLoaded(_)
@@ -926,8 +930,18 @@ fn canonicalise_undefined_symbols<'data, P: Platform>(
         });
 
         if is_defined {
-            // The archive entry that defined the symbol in question ended up being loaded, so the
-            // weak symbol is defined after all.
+            // The archive entry that defined the symbol in question ended up being loaded, or a
+            // definition from another loaded file was selected, so the weak symbol is defined
+            // after all. If the reference has non-default visibility, that still needs to be
+            // applied to whichever definition was selected.
+            let visibility = symbol_db.input_symbol_visibility(undefined.symbol_id);
+            if visibility != Visibility::Default {
+                symbol_db::apply_visibility_to_definition(
+                    per_symbol_flags,
+                    symbol_db.definition(undefined.symbol_id),
+                    visibility,
+                );
+            }
             continue;
         }
 
